@@ -241,13 +241,20 @@ def unknown_cases():
 POOL = ["a", "b", "c", "d", "tri"]
 
 
-def _make_root(aliases):
+def _make_root(aliases, abstract=False):
     from pydrobert.speech.alias import AliasedFactory
 
     def __init__(self, *args, **kwargs):
         self.args, self.kwargs = args, kwargs
 
-    return type("VerifRoot", (AliasedFactory,), {"aliases": set(aliases), "__init__": __init__})
+    ns = {"aliases": set(aliases), "__init__": __init__}
+    if abstract and not aliases:
+        # like the library's own families (ScalingFunction, LinearFilterBank ...): an abstract root without aliases;
+        # every generated class below it implements the method and is concrete
+        import abc
+
+        ns["verif_abstract"] = abc.abstractmethod(lambda self: None)
+    return type("VerifRoot", (AliasedFactory,), ns)
 
 
 def check_shadowing(case):
@@ -289,7 +296,7 @@ def check_shadowing(case):
 
     # ---- now register the classes one by one; the same lookup may also be made *between* registrations
     # (drawn positions): a class registered later must win from then on, whatever was resolved before
-    root = _make_root(case["root_aliases"])
+    root = _make_root(case["root_aliases"], abstract=True)
     classes = [root]
     probes = set(case.get("probes") or ())
 
@@ -314,7 +321,7 @@ def check_shadowing(case):
         if i in probes:
             if lookup(i, False) is not None:
                 early += 1
-        ns = {}
+        ns = {"verif_abstract": lambda self: None}
         if own[i]:
             ns["aliases"] = set(nodes[i - 1]["aliases"])
         classes.append(type("VerifNode%d" % i, (classes[parent_of[i]],), ns))
@@ -325,6 +332,28 @@ def check_shadowing(case):
         labels.add("unknown")
         return {"nontrivial": False, "labels": sorted(labels)}
     want = max(matching)
+    if len(matching) > 1 and not _is_ancestor(parent_of, want, max(j for j in matching if j != want)):
+        # the last-registered class does not accept a keyword that the shadowed ones accept: the alias still means the
+        # last-registered class (its TypeError reaches the caller) - an older class must not be built instead
+        winner = classes[want]
+        inherited = winner.__init__
+
+        def strict(self, *a, **k):
+            if "only_old" in k:
+                raise TypeError("__init__() got an unexpected keyword argument 'only_old'")
+            inherited(self, *a, **k)
+
+        winner.__init__ = strict
+        try:
+            try:
+                obj = classes[start].from_alias(query, only_old=1)
+            except Exception:  # noqa - the winner's rejection (in whatever exception the library reports it)
+                obj = None
+        finally:
+            del winner.__init__
+        require(obj is None, "from_alias({!r}, only_old=1): the last-registered class #{} rejects the keyword, but an instance of class #{} was built instead",
+                query, want, classes.index(type(obj)) if type(obj) in classes else "?")
+        labels.add("winner-rejects-arguments")
     if len(matching) > 1:
         for j in matching:
             if j != want:
